@@ -840,6 +840,31 @@ def _gen_axis(D_, ndim, single=False):
     return sorted(axes)
 
 
+def _product_safe(v):
+    """Product of the non-zero magnitudes stays far from overflow, so every
+    association order gives a finite (hence comparable) result."""
+    if v.dtype.kind not in "fc" or v.size == 0:
+        return True
+    with np.errstate(all="ignore"):
+        m = np.abs(v.astype(np.complex128 if v.dtype.kind == "c" else np.float64))
+        m = m[np.isfinite(m) & (m > 0)]
+        if m.size == 0:
+            return True
+        lg = float(np.sum(np.abs(np.log10(m))))
+    single = v.dtype in (np.dtype("f4"), np.dtype("c8"), np.dtype("f2"))
+    return lg < (30 if single else 250) and bool(np.isfinite(v).all())
+
+
+def _exactly_comparable(v):
+    """Integer-valued data: ordering is not at the mercy of floating rounding."""
+    if v.dtype.kind in "iub":
+        return True
+    if v.dtype.kind != "f":
+        return False
+    with np.errstate(all="ignore"):
+        return bool(np.isfinite(v).all() and np.all(v == np.round(v)))
+
+
 def _red(name):
     exact, dom = REDUCTIONS[name]
 
@@ -848,6 +873,10 @@ def _red(name):
         @staticmethod
         def gen(D_, vals):
             def pred(v):
+                if name == "prod" and not _product_safe(v):
+                    return False  # partial products could overflow in SOME association order (inf*0)
+                if name in ("argmin", "argmax") and not _exactly_comparable(v):
+                    return False  # ties/near-ties of inexact floats make the arg ill-defined
                 if dom == "real":
                     return v.dtype.kind in "iufb"
                 if dom == "num":
@@ -894,7 +923,7 @@ def _scan(name):
     class _C:
         @staticmethod
         def gen(D_, vals):
-            i = _pick(D_, vals, lambda v: v.ndim >= 1 and (name == "cumsum" or v.size <= 24))
+            i = _pick(D_, vals, lambda v: v.ndim >= 1 and (name == "cumsum" or (v.size <= 24 and _product_safe(v))))
             if i is None:
                 return None
             n = vals[i].ndim
@@ -1030,7 +1059,48 @@ class _Tensordot:
         return da.tensordot(a[0], a[1], axes=(tuple(s["axes"][0]), tuple(s["axes"][1])))
 
 
+@op("setitem", "setitem")
+class _Setitem:
+    """Functional form of an in-place assignment: y = copy(x); y[index] = value; result y."""
+
+    @staticmethod
+    def gen(D_, vals):
+        i = _pick(D_, vals, lambda v: v.ndim >= 1 and v.dtype.kind in "iuf" and v.size > 0)
+        if i is None:
+            return None
+        v = vals[i]
+        idx = gidx.gen_basic_index(D_, v.shape, allow_none=False, allow_ellipsis=True)
+        kind = D_.weighted([("scalar", 3), ("row", 2)])
+        s = {"op": "setitem", "args": [i], "index": gidx.enc(idx)}
+        if kind == "scalar":
+            s["value"] = D_.choice([-5, 0, 7])
+        else:
+            sel = v[idx]
+            s["value"] = {"arange": list(sel.shape[-1:])}  # broadcast along the leading selected axes
+        return s
+
+    @staticmethod
+    def _value(s, dtype):
+        v = s["value"]
+        if isinstance(v, dict):
+            return (np.arange(int(np.prod(v["arange"])) if v["arange"] else 1).reshape(v["arange"]) + 100).astype(dtype)
+        return v
+
+    @staticmethod
+    def np(s, a):
+        out = a[0].copy()
+        out[gidx.dec(s["index"])] = _Setitem._value(s, a[0].dtype)
+        return out
+
+    @staticmethod
+    def da(s, a):
+        out = a[0].copy()
+        out[gidx.dec(s["index"])] = _Setitem._value(s, a[0].dtype)
+        return out
+
+
 FAMILY_WEIGHTS = {
+    "setitem": 2,
     "elemwise": 10,
     "elemwise2": 8,
     "shape": 12,
